@@ -215,28 +215,20 @@ func (fi *File) Mode() (os.FileMode, error) {
 }
 
 func (fi *File) SetMode(mode os.FileMode) error {
-	nd, err := fi.GetNode()
-	if err != nil {
-		return err
-	}
-
-	fsn, err := ft.ExtractFSNode(nd)
-	if err != nil {
-		if errors.Is(err, ft.ErrNotProtoNode) {
-			// Wrap raw node in protonode.
-			data := nd.RawData()
-			return fi.setNodeData(ft.FilePBDataWithStat(data, uint64(len(data)), mode, time.Time{}))
+	return fi.updateNodeData(func(nd ipld.Node) ([]byte, error) {
+		fsn, err := ft.ExtractFSNode(nd)
+		if err != nil {
+			if errors.Is(err, ft.ErrNotProtoNode) {
+				// Wrap raw node in protonode.
+				data := nd.RawData()
+				return ft.FilePBDataWithStat(data, uint64(len(data)), mode, time.Time{}), nil
+			}
+			return nil, err
 		}
-		return err
-	}
 
-	fsn.SetMode(mode)
-	data, err := fsn.GetBytes()
-	if err != nil {
-		return err
-	}
-
-	return fi.setNodeData(data)
+		fsn.SetMode(mode)
+		return fsn.GetBytes()
+	})
 }
 
 // ModTime returns the files' last modification time.
@@ -255,31 +247,34 @@ func (fi *File) ModTime() (time.Time, error) {
 
 // SetModTime sets the files' last modification time.
 func (fi *File) SetModTime(ts time.Time) error {
-	nd, err := fi.GetNode()
-	if err != nil {
-		return err
-	}
-
-	fsn, err := ft.ExtractFSNode(nd)
-	if err != nil {
-		if errors.Is(err, ft.ErrNotProtoNode) {
-			// Wrap raw node in protonode.
-			data := nd.RawData()
-			return fi.setNodeData(ft.FilePBDataWithStat(data, uint64(len(data)), 0, ts))
+	return fi.updateNodeData(func(nd ipld.Node) ([]byte, error) {
+		fsn, err := ft.ExtractFSNode(nd)
+		if err != nil {
+			if errors.Is(err, ft.ErrNotProtoNode) {
+				// Wrap raw node in protonode.
+				data := nd.RawData()
+				return ft.FilePBDataWithStat(data, uint64(len(data)), 0, ts), nil
+			}
+			return nil, err
 		}
-		return err
-	}
 
-	fsn.SetModTime(ts)
-	data, err := fsn.GetBytes()
-	if err != nil {
-		return err
-	}
-
-	return fi.setNodeData(data)
+		fsn.SetModTime(ts)
+		return fsn.GetBytes()
+	})
 }
 
-func (fi *File) setNodeData(data []byte) error {
+// updateNodeData replaces the file's root node by one that carries the UnixFS
+// data computed by newData from the current node. The current node is read,
+// the new node built, stored in the DAG service and installed within a single
+// critical section of nodeLock: a node flushed concurrently by a descriptor is
+// neither overwritten by a node built from a stale snapshot nor mixed with it.
+func (fi *File) updateNodeData(newData func(cur ipld.Node) ([]byte, error)) error {
+	fi.nodeLock.Lock()
+	data, err := newData(fi.node)
+	if err != nil {
+		fi.nodeLock.Unlock()
+		return err
+	}
 	nd := dag.NodeWithData(data)
 
 	// Preserve the previous node's links (file content blocks) and
@@ -292,10 +287,15 @@ func (fi *File) setNodeData(data []byte) error {
 		}
 	}
 
-	err := fi.dagService.Add(context.TODO(), nd)
+	err = fi.dagService.Add(context.TODO(), nd)
 	if err != nil {
+		fi.nodeLock.Unlock()
 		return err
 	}
+	fi.node = nd
+	parent := fi.parent
+	name := fi.name
+	fi.nodeLock.Unlock()
 
 	if fi.prov != nil {
 		log.Debugf("mfs: provide: %s", nd.Cid())
@@ -304,10 +304,5 @@ func (fi *File) setNodeData(data []byte) error {
 		}
 	}
 
-	fi.nodeLock.Lock()
-	fi.node = nd
-	parent := fi.parent
-	name := fi.name
-	fi.nodeLock.Unlock()
-	return parent.updateChildEntry(child{name, fi.node})
+	return parent.updateChildEntry(child{name, nd})
 }
